@@ -53,4 +53,135 @@ def C14(chk):
                        "non-trivial = distinct category signatures")
 
 
-PROPS = {"C13": C13, "C14": C14, "C18": C18}
+# --------------------------------------------------------------------------------- profile machine
+KF_BIDI = "KF-C09-bidi-interior-nsm"
+KF_CHEROKEE = "KF-C08-cherokee-lowercase-unassigned"
+CHEROKEE_LOWER = set(range(0xAB70, 0xABC0)) | set(range(0x13F8, 0x13FE))
+
+
+def classify_std(m):
+    """known findings of DESIGN.md section 7, identified by model-checked signature / input range"""
+    if m.get("dev") == "bidi_nsm_strict":
+        return KF_BIDI
+    if m.get("k") == "c08" and m.get("p") == "UCM" and m["what"].get("c08") == "forbidden" \
+            and m["what"].get("cp") in CHEROKEE_LOWER and any(0x13A0 <= c <= 0x13F5 for c in m.get("in", [])):
+        return KF_CHEROKEE
+    return None
+
+
+ALL_INVS = ["Agree", "PrepareFailurePropagates", "NoDrift", "OutputClean", "FixedPoint", "OnlySpacesChange",
+            "MappingsAgree", "MappingsIdempotent", "AllowsAgree"]
+
+
+def profiles_mc(chk, name, roles, maxlen, profs, ops, instances=(0,), invariants=ALL_INVS, forms=False, workers=6, timeout=2400):
+    """MC_Profiles over a generated alphabet: TLC checks the invariants on every string, emits every
+    behaviour, the harness replays them into the real API"""
+    import universe
+    for inst in instances:
+        tag = "%s-i%d" % (name, inst)
+        upath, chosen, u = universe.generate(roles, inst, chk.seed, tag=tag)
+        cfg = "SPECIFICATION Spec\nCONSTANTS\n  MaxLen = %d\n  Profs = {%s}\n  Ops = {%s}\n  FirstSyms = {}\n" % (
+            maxlen, ", ".join('"%s"' % p for p in profs), ", ".join('"%s"' % o for o in ops))
+        cfg += "".join("INVARIANT %s\n" % i for i in invariants) + "INVARIANT Emit\nVIEW View\nCHECK_DEADLOCK FALSE\n"
+        mc = run_mc("MC_Profiles", cfg, tag, workers=workers, timeout=timeout, extra_files=[upath], heap="8g")
+        import shutil
+        shutil.rmtree(os.path.dirname(upath), ignore_errors=True)
+        label = "%s[%s] len<=%d inst=%d" % (name, ",".join("%s=U+%04X" % (r, chosen[r]) for r in roles), maxlen, inst)
+        if mc.res.violated:
+            spec_violation(chk, mc, label)
+            continue
+        replay(chk, mc, label, harness_args=(["--forms"] if forms else []), classify=classify_std)
+
+
+def C04(chk):
+    q = chk.tier == "quick"
+    n = 3 if q else 4
+    insts = (0, 1) if q else (0, 1, 2, 3)
+    profs, ops = ["UCM", "UCP"], ["prepare", "enforce"]
+    profiles_mc(chk, "width-case", ["a", "A", "FWA", "fwa", "HWK", "ISP", "FWBANG", "SP", "d1"], n, profs, ops, insts)
+    profiles_mc(chk, "case-nfc", ["A", "e", "acute", "Eac", "angst", "Sig", "dotI", "cedil", "ypo"], n, profs, ops, insts)
+    profiles_mc(chk, "nfc-bidi", ["heb", "hpt", "a", "d1", "aid", "eaid", "arab", "fatha", "dot"], n, profs, ops, insts)
+    profiles_mc(chk, "context-case", ["l", "mdot", "A", "grk", "GRK", "keraia", "ZWJ", "vir", "deva"], n, profs, ops, insts)
+    chk.cov["exhaustive"] = True
+    chk.cov["rule"] = ("every string of length <= %d over four 9-role alphabets (width x validation x case, case x NFC, NFC x bidi, "
+                       "context x case), canonical instance plus %d seeded random instances of the same roles; both username profiles, "
+                       "prepare and enforce; the pipeline machine is checked step by step by TLC (Agree, PrepareFailurePropagates, "
+                       "NoDrift, OutputClean, ...) and every behaviour is replayed into the real API, result and error payload compared; "
+                       "non-trivial = behaviours with more than one pipeline step executed" % (n, len(insts) - 1))
+
+
+def C05(chk):
+    q = chk.tier == "quick"
+    n = 3 if q else 4
+    insts = (0, 1) if q else (0, 1, 2, 3)
+    ops = ["prepare", "enforce", "additional_mapping_rule", "normalization_rule"]
+    profiles_mc(chk, "opq-spaces", ["a", "A", "SP", "NBSP", "OGH", "ISP", "EQD", "EMSP", "TAB"], n, ["OPQ"], ops, insts)
+    profiles_mc(chk, "opq-compat", ["a", "FWA", "rom4", "e", "acute", "angst", "emo", "NBSP", "diaer"], n, ["OPQ"], ops, insts)
+    apply_l1(chk, ["osp"], nontrivial_key="zs")
+    chk.cov["exhaustive"] = True
+    chk.cov["rule"] = ("every string of length <= %d over two 9-role alphabets (all kinds of spaces incl. controls; compatibility, "
+                       "case, decomposed and 4-byte characters), canonical + %d random instances; OpaqueString prepare / enforce / "
+                       "additional_mapping_rule / normalization_rule as a step machine checked by TLC (OnlySpacesChange, Agree, NoDrift, "
+                       "OutputClean) and replayed into the real API; L1: every code point through additional_mapping_rule" % (n, len(insts) - 1))
+
+
+def C06(chk):
+    q = chk.tier == "quick"
+    n = 3 if q else 4
+    insts = (0, 1) if q else (0, 1, 2)
+    ops = ["prepare", "enforce"]
+    profiles_mc(chk, "nick-spaces", ["a", "A", "SP", "NBSP", "ISP", "diaer", "EMSP", "OGH"], n + 1, ["NICK"], ops, insts)
+    profiles_mc(chk, "nick-compat", ["a", "rom4", "hcj", "eac", "han", "emo", "FWA", "SP", "diaer"], n, ["NICK"], ops, insts)
+    chk.cov["exhaustive"] = True
+    chk.cov["rule"] = ("every string of length <= %d over a space alphabet (incl. U+00A8 whose NFKC introduces a leading space, so that "
+                       "a second and third application are needed) and <= %d over a compatibility alphabet (incl. Hangul compatibility "
+                       "jamo whose NFKC is DISALLOWED), canonical + %d random instances; Nickname prepare/enforce as a round machine "
+                       "(stabilize) checked by TLC (FixedPoint, Agree, NoDrift, OutputClean) and replayed" % (n + 1, n, len(insts) - 1))
+
+
+def C10(chk):
+    q = chk.tier == "quick"
+    n = 4 if q else 5
+    insts = (0, 1) if q else (0, 1, 2, 3)
+    profiles_mc(chk, "case", ["a", "A", "ypo", "dz", "dotI", "DSR", "Sig", "han"], n, ["UCM", "NICK"],
+                ["case_mapping_rule"], insts, invariants=["Agree", "MappingsAgree", "MappingsIdempotent"])
+    profiles_mc(chk, "case-enforce", ["a", "A", "ypo", "dotI", "DSR", "Sig", "GRK", "Eac"], n - 1, ["UCM"], ["enforce"], insts)
+    apply_l1(chk, ["lc"], nontrivial_key="lower")
+    chk.cov["exhaustive"] = True
+    chk.cov["rule"] = ("every string of length <= %d over {lowercase, uppercase, titlecase (U+1F88, U+01C5), U+0130 (one-to-many), "
+                       "4-byte cased, sigma, uncased} through case_mapping_rule of both profiles that define it, and <= %d through "
+                       "UsernameCaseMapped::enforce; TLC checks that the copy-on-first-change scan equals the per-character map; all "
+                       "behaviours replayed; L1: every code point alone, after 'A' and before 'A' against char::to_lowercase" % (n, n - 1))
+
+
+def C11(chk):
+    q = chk.tier == "quick"
+    n = 4 if q else 5
+    insts = (0, 1) if q else (0, 1, 2, 3)
+    profiles_mc(chk, "width", ["a", "FWA", "HWK", "ISP", "rom4", "eac", "emo", "fwa"], n, ["UCM", "UCP"],
+                ["width_mapping_rule"], insts, invariants=["Agree", "MappingsAgree", "MappingsIdempotent"])
+    profiles_mc(chk, "width-prepare", ["a", "FWA", "HWK", "ISP", "rom4", "eac", "FWBANG"], n - 1, ["UCM", "UCP"], ["prepare"], insts)
+    apply_l1(chk, ["wm"], nontrivial_key="wm")
+    chk.cov["exhaustive"] = True
+    chk.cov["rule"] = ("every string of length <= %d over {ASCII, fullwidth upper/lower, halfwidth katakana, ideographic space, other "
+                       "compatibility (roman numeral), 2- and 4-byte unmapped} through width_mapping_rule, <= %d through prepare; "
+                       "scan = per-character map and idempotence checked by TLC; replayed; L1: every code point alone, after 'a', "
+                       "before 'a' against <wide>/<narrow> of pinned UnicodeData 16.0.0" % (n, n - 1))
+
+
+def C12(chk):
+    q = chk.tier == "quick"
+    n = 5 if q else 6
+    insts = (0,) if q else (0, 1)
+    profiles_mc(chk, "spaces", ["SP", "NBSP", "OGH", "a", "eac", "han", "emo"], n, ["NICK", "OPQ"],
+                ["additional_mapping_rule"], insts, invariants=["Agree", "MappingsAgree", "MappingsIdempotent", "OnlySpacesChange"])
+    profiles_mc(chk, "spaces-enforce", ["SP", "NBSP", "ISP", "a", "eac", "emo"], n - 1, ["NICK", "OPQ"], ["enforce"], insts)
+    apply_l1(chk, ["osp", "nsp"], nontrivial_key="zs")
+    chk.cov["exhaustive"] = True
+    chk.cov["rule"] = ("every string of length <= %d over {SP, NBSP (2-byte Zs), OGHAM (3-byte Zs), 1/2/3/4-byte non-spaces} through both "
+                       "additional mapping rules, <= %d through enforce; TLC checks two-phase scan (byte offsets, begin/prev_space "
+                       "registers) = map+strip+collapse, slices on character boundaries, idempotence; replayed; L1: all 17 Zs and all "
+                       "other code points between two letters" % (n, n - 1))
+
+
+PROPS = {"C04": C04, "C05": C05, "C06": C06, "C10": C10, "C11": C11, "C12": C12, "C13": C13, "C14": C14, "C18": C18}
